@@ -607,3 +607,11 @@ func ByName(name string) *Scenario {
 	}
 	return nil
 }
+
+// G0 returns the session's channel (whatever the driver type).
+func (s *Session) G0() *channel.Channel {
+	if s.D != nil {
+		return s.D.Channel
+	}
+	return s.G.Channel
+}
